@@ -137,9 +137,9 @@ func (r *Run) Yield() { Pre("harness.yield") }
 // blocked (on a primitive or on time) or done.  No virtual time passes.
 func (r *Run) Quiesce() {
 	s := r.Sim
+	t := curTask()
 	s.mu.Lock()
-	t := s.current
-	if t == nil || s.ended {
+	if t == nil || s.ended || t.state != stRunning {
 		s.mu.Unlock()
 		return
 	}
@@ -214,3 +214,6 @@ func (s *Sim) Sample(v any) {
 	}
 	s.mu.Unlock()
 }
+
+// Cfg returns the scheduler configuration of this run.
+func (s *Sim) Cfg() Config { return s.cfg }
